@@ -204,6 +204,8 @@ EXTRA_SEEDS = [
     ("ansi", "create table tab1 like src"),
     ("ansi", "create view v1 (a, b) as select c, d from src"),
     ("sparksql", "cache table tab1; insert into tab2 select a from tab1"),
+    ("ansi", "insert into tab1 select a from ((select a from tab2) union all (select a from tab3)) dt"),
+    ("ansi", "insert into tab1 (select a from tab2) union all (select a from tab3)"),
 ]
 
 
@@ -253,7 +255,7 @@ def run(tier: str, opts: dict) -> int:
         short = sorted([s for s in seeds if s[3] == "single+all"], key=lambda s: len(s[1]))[:50]
         seeds = [(a, b, c, "pairs") if (a, b, c, d) in short else (a, b, c, d) for a, b, c, d in seeds]
     # the same seeds under the sqlparse-based analyzer (ansi-lexed seeds; generated seeds always, corpus seeds in thorough)
-    seeds += [(a, b, c, "single+all" if d == "pairs" else d, LEGACY) for a, b, c, d in seeds if c == "ansi" and (tier != "quick" or a.startswith("gen:"))]
+    seeds += [(a, b, c, "single+all" if d == "pairs" else d, LEGACY) for a, b, c, d in seeds if c == "ansi" and (tier != "quick" or a.startswith(("gen:", "extra:")))]
     res = pmap(_eval, seeds, chunk=1)
     regen = opts.get("regen_pins")
     new_pins = {}
